@@ -1,6 +1,7 @@
 """C17 — samplers are the specification's functions of their seeds and stay in range."""
 from .. import pyspec as S
 ID = "C17"
+SPEC_ORACLE = ['samplers', 'shake']   # specification definitions used by Props/C17.lean are compared with hashlib / pyspec on every run
 Q = 8380417
 SETS = ["lvl2", "lvl3", "lvl5", "ml_dsa_44", "ml_dsa_65", "ml_dsa_87"]
 RULE = ("byte-level rejection routines on crafted buffers (all-accept, all-reject, exact fill on the last byte, buffers too short, "
